@@ -281,6 +281,52 @@ if getattr(_orig_unpack_from, '__module__', '') != __name__:
     MC.NATIVE_MODELS[_struct.unpack_from] = struct_unpack_from
 
 
+# ---------------------------------------------------------------------------
+# f-strings: a replacement field that names an UNBOUND local raises NameError / UnboundLocalError in CPython (e.g. a
+# variable assigned only inside a `try` whose handler falls through).  The f-string evaluators of the core / ext_c20 treat
+# any failure inside a replacement field as "opaque text"; here the names are resolved first so that the exception is kept.
+# ---------------------------------------------------------------------------
+from . import ext_c20 as _X20  # noqa: E402  (also fixes the patch order: ext_c20's evaluator is the one wrapped here)
+
+_orig_joined = E.Path.ev_JoinedStr
+
+
+def ev_JoinedStr(self, n):
+    for v in n.values:
+        if isinstance(v, ast.FormattedValue) and _X20._pure_str_expr(v.value):
+            for sub in ast.walk(v.value):
+                if isinstance(sub, ast.Name):
+                    self.lookup(sub.id)  # PyExc(NameError) when unbound; no effect otherwise
+    return _orig_joined(self, n)
+
+
+if E.Path.ev_JoinedStr.__module__ != __name__:
+    E.Path.ev_JoinedStr = ev_JoinedStr
+
+
+# ---------------------------------------------------------------------------
+# reading a local variable that is not bound yet raises UnboundLocalError (a subclass of NameError) in CPython; the core
+# raises plain NameError for every unresolved name.  Same path, exact class (so that the native replay agrees).
+# ---------------------------------------------------------------------------
+_orig_lookup = E.Path.lookup
+
+
+def lookup(self, name, node=None):
+    try:
+        return _orig_lookup(self, name, node)
+    except E.PyExc as e:
+        if type(e.value) is NameError and self.func_stack:
+            nat = getattr(self.func_stack[-1], 'native', None)
+            code = getattr(nat, '__code__', None)
+            if code is not None and name in code.co_varnames + code.co_cellvars:
+                raise E.PyExc(UnboundLocalError(f"cannot access local variable '{name}' where it is not associated with a value"))
+        raise
+
+
+if E.Path.lookup.__module__ != __name__:
+    E.Path.lookup = lookup
+
+
 import os as _os  # noqa: E402
 
 if _os.environ.get('PYVC_DEBUG_WHY'):
